@@ -41,6 +41,7 @@ import (
 	govtypes "github.com/cosmos/cosmos-sdk/x/gov/types"
 	govv1 "github.com/cosmos/cosmos-sdk/x/gov/types/v1"
 	"github.com/cosmos/gogoproto/proto"
+	"github.com/ethereum/go-ethereum/common"
 
 	"github.com/functionx/fx-core/v8/testutil/helpers"
 	fxtypes "github.com/functionx/fx-core/v8/types"
@@ -222,6 +223,28 @@ func TestC16(t *testing.T) {
 	}
 
 	// ---- valid payload builders for the fx-core messages
+	// a contract that exists, so that a governance-authorised MsgCallContract really takes effect
+	callee := helpers.GenHexAddress()
+	if err := app.EvmKeeper.CreateContractWithCode(s.Ctx, callee, []byte{0x00}); err != nil {
+		t.Fatalf("install callee: %v", err)
+	}
+	// an ERC-20 contract that exists and is not registered, so that a governance-authorised MsgRegisterERC20 takes effect
+	token, err := app.Erc20Keeper.DeployUpgradableToken(s.Ctx, common.BytesToAddress(authtypes.NewModuleAddress(erc20types.ModuleName)), "Sample Token", "SMPL", 18)
+	if err != nil {
+		t.Fatalf("deploy token: %v", err)
+	}
+	tokenAddr := func(rng *rand.Rand) string {
+		if rng.Intn(4) == 0 {
+			return helpers.GenHexAddress().String()
+		}
+		return token.String()
+	}
+	calleeAddr := func(rng *rand.Rand) string {
+		if rng.Intn(4) == 0 {
+			return helpers.GenHexAddress().String() // no such contract: fails after the guard
+		}
+		return callee.String()
+	}
 	valid := func(rng *rand.Rand) []sdk.Msg {
 		chain := hx.Pick(rng, chains)
 		cp := crosschaintypes.DefaultParams()
@@ -242,10 +265,10 @@ func TestC16(t *testing.T) {
 			&crosschaintypes.MsgUpdateChainOracles{ChainName: chain, Oracles: []string{helpers.GenAccAddress().String(), helpers.GenAccAddress().String()}},
 			&erc20types.MsgUpdateParams{Params: erc20types.DefaultParams()},
 			&erc20types.MsgRegisterCoin{Metadata: fxtypes.GetCrossChainMetadataManyToOne("Test Token", "TT"+strings.ToUpper(helpers.NewRandSymbol()), 18)},
-			&erc20types.MsgRegisterERC20{Erc20Address: helpers.GenHexAddress().String()},
+			&erc20types.MsgRegisterERC20{Erc20Address: tokenAddr(rng)},
 			&erc20types.MsgToggleTokenConversion{Token: fxtypes.DefaultDenom},
 			&erc20types.MsgUpdateDenomAlias{Denom: fxtypes.DefaultDenom, Alias: "alias" + helpers.NewRandDenom()},
-			&fxevmtypes.MsgCallContract{ContractAddress: helpers.GenHexAddress().String(), Data: "01"},
+			&fxevmtypes.MsgCallContract{ContractAddress: calleeAddr(rng), Data: "01"},
 			&fxgovtypes.MsgUpdateStore{UpdateStores: []fxgovtypes.UpdateStore{{Space: "erc20", Key: hex.EncodeToString(key), OldValue: "", Value: "01"}}},
 			&fxgovtypes.MsgUpdateSwitchParams{Params: sw},
 			&fxgovtypes.MsgUpdateCustomParams{MsgUrl: sdk.MsgTypeURL(&distrtypes.MsgCommunityPoolSpend{}), CustomParams: custom},
@@ -435,6 +458,13 @@ func TestC16(t *testing.T) {
 				out.Emit(fmt.Sprintf("call %s %s %s %d %s", msgKey(m), hx.HexS(gov), dash(hx.HexS(c.val)), pk, chainOf(m)), obs)
 				out.Count("corr:" + c.kind + ":" + obs)
 				out.Nontrivial(msgKey(m) + "|" + c.kind + "|" + obs)
+				if c.kind == "gov" && payloadOk {
+					if err == nil {
+						out.Count("gov-takes-effect:" + msgKey(m))
+					} else {
+						out.Count("gov-fails-later:" + msgKey(m))
+					}
+				}
 				// property monitor
 				if !foldEq(gov, c.val) && err == nil {
 					out.Violate(fmt.Sprintf("privileged message %s took effect with non-governance authority kind=%s (%q)", msgKey(m), c.kind, c.val))
